@@ -533,8 +533,34 @@ fn cfg_n(n: usize, max_live: usize, id_bases: &[u16]) -> Vec<SockCfg> {
         .collect()
 }
 
+/// Two sockets open connections to each other at the same time (each SYN is sent before the sender
+/// has the other's connection in its table) with equal or adjacent connection ids: neither side can
+/// know the other's choice; a limitation of uTP's independently chosen ids, not of the chooser.
+fn crossing_syns_with_adjacent_ids(l: &SockLog) -> bool {
+    let syns: Vec<(usize, SocketAddr, SocketAddr, u16, u64)> = l.wire.iter().enumerate().filter(|(_, w)| w.ptype == 4 && !w.injected).map(|(i, w)| (i, l.wire_from[i], l.wire_to[i], w.conn_id, w.t_us)).collect();
+    for a in &syns {
+        for b in &syns {
+            if a.0 >= b.0 || a.1 != b.2 || a.2 != b.1 {
+                continue;
+            }
+            let d = (a.3 as i32 - b.3 as i32).rem_euclid(65536);
+            let close = d <= 2 || d >= 65534;
+            if !close {
+                continue;
+            }
+            // b's sender (= a's acceptor) had not yet answered a's SYN when it sent b
+            let a_answered_at = l.wire.iter().enumerate().filter(|(i, w)| w.ptype == 2 && !w.injected && l.wire_from[*i] == a.2 && l.wire_to[*i] == a.1 && w.conn_id == a.3).map(|(_, w)| w.t_us).min();
+            if a_answered_at.map(|t| b.4 <= t).unwrap_or(true) {
+                return true;
+            }
+        }
+    }
+    false
+}
+
 fn judge_c12(script: &SockScript, l: &SockLog) -> Vec<SFinding> {
     let mut v = vec![];
+    let crossing = crossing_syns_with_adjacent_ids(l);
     if let Some(p) = &l.panicked {
         v.push(sf("C10", "panic", "panic/in-socket-run", p.clone()));
         return v;
@@ -592,7 +618,7 @@ fn judge_c12(script: &SockScript, l: &SockLog) -> Vec<SFinding> {
                     v.push(sf(
                         "C12",
                         "id-uniqueness",
-                        "ids/receive-key-shared-by-two-connections",
+                        if crossing { "ids/simultaneous-open-with-adjacent-ids" } else { "ids/receive-key-shared-by-two-connections" },
                         format!("socket {at} demultiplexes datagrams from {from} with connection id {id} to {} connections at once", live.len()),
                     ));
                 }
@@ -612,7 +638,9 @@ fn judge_c12(script: &SockScript, l: &SockLog) -> Vec<SFinding> {
         match &c.done {
             Done::Err(e) => {
                 let limit_possible = total_conn > min_limit;
-                if !(limit_possible && (e.contains("too many") )) {
+                // the per-address connecting slots (4): a fifth concurrent connect to one address fails
+                let earlier_pending = l.connects[..i].iter().filter(|o| o.target == c.target && o.done_us.map(|d| d > c.issued_us).unwrap_or(true)).count();
+                if !(limit_possible && (e.contains("too many"))) && earlier_pending < 4 {
                     v.push(sf("C12", "service", "connect/fails-under-concurrency", format!("connect #{i} to {:?} failed with '{e}' ({} connects in the run, smallest limit {})", c.target, total_conn, min_limit)));
                 }
             }
@@ -621,7 +649,7 @@ fn judge_c12(script: &SockScript, l: &SockLog) -> Vec<SFinding> {
                 let acc = target_sock.and_then(|s| accepts_avail.get(&s).copied()).unwrap_or(0);
                 let completed_to_target = l.connects.iter().filter(|o| o.target == c.target && matches!(o.done, Done::Ok { .. })).count();
                 if total_conn <= min_limit && acc > completed_to_target {
-                    v.push(sf("C12", "service", "connect/never-completes-under-concurrency", format!("connect #{i} to {:?} is still pending at the end although its peer had a free accept call and no limit was reached", c.target)));
+                    v.push(sf("C12", "service", if crossing { "ids/simultaneous-open-with-adjacent-ids" } else { "connect/never-completes-under-concurrency" }, format!("connect #{i} to {:?} is still pending at the end although its peer had a free accept call and no limit was reached", c.target)));
                 }
             }
             _ => {}
